@@ -39,10 +39,11 @@ def _oracle(ctx, area, n, label):
     for l, o in zip(lines, outs):
         ctx.extra[key] = ctx.extra.get(key, 0) + 1
         if o.startswith("ok"):
-            try:
-                ctx.extra[key + "_checks"] = ctx.extra.get(key + "_checks", 0) + int(o.split()[1])
-            except (IndexError, ValueError):
-                pass
+            for w in o.split()[1:]:
+                if w.isdigit():
+                    ctx.extra[key + "_checks"] = ctx.extra.get(key + "_checks", 0) + int(w)
+                else:
+                    ctx.extra[key + "_" + w] = ctx.extra.get(key + "_" + w, 0) + 1
             if len(ctx.samples) < 16 and ctx.extra[key] % 2000 == 1:
                 ctx.samples.append({"area": area, "op": l[:200], "oracle": o[:200]})
             continue
@@ -98,6 +99,27 @@ def run(ctx):
         "known_findings.json (any other failing history is a VIOLATION); probe rectangles derived by the harness "
         "are dropped when absorbed",
     ]
+    ctx.assumptions += [
+        "integer domain of the theorems: the model computes in unbounded integers, Go int wraps. The theorems (abs_run, "
+        "find*_eq_filter, fuel_*) transfer to Go for histories in which every value the source computes stays within "
+        "int64: every stored and query rectangle has X+Width and Y+Height within int64 AND the union of the stored "
+        "rectangles is narrower than 2^63 on both axes. Outside that domain the evidence is the implementation-side "
+        "oracle `intwrap` (linear scan with the library's predicates, these cross-checked against math/big): "
+        "histories where no rectangle wraps are judged strictly, also when the union is wider than 2^63 (the root "
+        "computed by Reorganize then wraps to an Empty rectangle and the Contains guard keeps everything in the "
+        "scanned outside list); a rectangle whose X+Width leaves int64 makes geom's Contains/Intersects mutually "
+        "inconsistent, so the pruned queries disagree with the scan: KNOWN FINDING by specific histories "
+        "(corpus/C07/intwrap.known-wrap.ops, op word iws, matched against known_findings.json); generated "
+        "histories of that class are counted (oracle_intwrap_wrap-mismatch / wrap-agree), not alarmed",
+        "fuel: fuel_suffices_int needs a box with W+H < fuel; the driver's fuel is 200 while int histories contain "
+        "squares up to 2^60, so for the histories actually run the theorem does not apply and the run-time test "
+        "Tree.fuelOK (out-of-fuel = mismatch) is the guard; the real depth is logarithmic. For Rat, "
+        "split_depth_rat / reorganize_depth_rat bound the depth by k whenever root width < smallest item width * "
+        "2^k (node level and one Reorganize; not lifted to whole histories, no fuel-independence theorem for Rat)",
+        "OpOK fixes ONE bounds function for the whole history: a node id cannot be removed, given other bounds and "
+        "re-inserted under the same id (the package allows that for a node that is not stored); the harness "
+        "enforces the same restriction, so that pattern is not exercised - it is covered only up to renaming ids",
+    ]
     ctx.lean(props=["Props.C07"], drivers=["drv_c07"])
     ctx.harness("./cmd/c07")
     ctx.diff(area="quadtree", driver="drv_c07", n={"quick": 150000, "thorough": 3000000}, stateful=True, timeout=300,
@@ -107,3 +129,6 @@ def run(ctx):
                      "impl != model on this history")
     _oracle(ctx, "floatscan", {"quick": 6000, "thorough": 300000},
             "quadtree vs linear scan with the library's geom predicates on rounding float64 coordinates")
+    _oracle(ctx, "intwrap", {"quick": 20000, "thorough": 600000},
+            "QuadTree[int] at the ends of the int64 range vs linear scan with the library's geom predicates "
+            "(cross-checked against unbounded-integer arithmetic)")
